@@ -578,3 +578,72 @@ def floor_print(rep, prog, rule="FLOOR-PRINT"):
             rep.violation(rule, key, "%s prints Timestamp::as_second() (truncation toward zero) without testing the sign of the sub-second "
                           "part: -1.5s prints as -1 where the C library and this crate's own parser mean floor (-2)" % f.path, f.loc())
     rep.floor(rule + " functions", n, 1)
+
+
+def iter_strict(rep, prog, rule="ITER-STRICT"):
+    """termination of preceding()/following() must not depend on the data being well formed"""
+    from .guards import guards
+    rep.rule(rule, "TimeZone::preceding/following feed each yielded instant back as the next cursor (ITER-FEEDBACK), so they terminate "
+                   "only if every yielded transition is strictly before / after the cursor. The recorded times can repeat (times "
+                   "outside the supported range are clamped to its ends when a TZif file is read), so a binary search alone does not "
+                   "give that: Tzif::previous_transition and Tzif::next_transition compare the time of the entry they are about to "
+                   "yield with the search key in a loop that moves the index (`timestamps()[index] >= key` / `<= key`), and "
+                   "TzifOwned::parse_transitions (both copies) rejects a file whose raw transition times are not strictly ascending "
+                   "(a comparison of each time with the one before it that leads to Err)")
+    base = "jiff::tz::tzif::Tzif::<STR, ABBREV, TYPES, TIMESTAMPS, STARTS, ENDS, INFOS>::"
+    n = 0
+    for name, ops in (("previous_transition", ("Ge", "Gt")), ("next_transition", ("Le", "Lt"))):
+        f = prog.fns.get(base + name)
+        if f is None:
+            rep.anchor_missing("tz::tzif::Tzif::" + name)
+            continue
+        n += 1
+        T = Terms(f)
+        cfg = mir.CFG(f)
+        loop_blocks = {bi for bi in cfg.reachable() if any(cfg.can_reach(sx, bi) for sx in cfg.succ[bi])}
+        found = False
+        for bi in loop_blocks:
+            t = f.blocks[bi]["term"]
+            if t["t"] != "switch":
+                continue
+            c = T.operand(t["op"], 0, (bi, "term"))
+            for x in walk(c):
+                if isinstance(x, tuple) and x and x[0] == "bin" and x[1] in ops + tuple({"Ge": "Le", "Gt": "Lt", "Le": "Ge", "Lt": "Gt"}[o] for o in ops):
+                    sides = (x[2], x[3])
+                    has_entry = [any(isinstance(y, tuple) and y and y[0] == "index" and any(is_call(z, "::timestamps") for z in walk(y[1])) for y in walk(sd)) for sd in sides]
+                    has_key = [any(is_call(y, "Timestamp::as_second") for y in walk(sd)) for sd in sides]
+                    if (has_entry[0] and has_key[1]) or (has_entry[1] and has_key[0]):
+                        found = True
+        key = name + ": strict progress"
+        if found:
+            rep.ok(rule, key, how="a loop compares timestamps()[index] with the search key", loc=f.loc())
+        else:
+            rep.violation(rule, key, "no loop compares the time of the entry about to be yielded with the search key: with repeated recorded "
+                          "times (two transitions clamped to Timestamp::MIN) the entry found by the binary search is not strictly %s "
+                          "the cursor, the iterator yields it again and again and never ends" % ("before" if name.startswith("prev") else "after"), f.loc())
+    for crate in ("jiff", "jiff_static"):
+        cands = [f for f in prog.fns.values() if f.crate == crate and not f.is_closure and f.path.endswith("::parse_transitions") and "shared::tzif" in f.path]
+        if not cands:
+            if crate in prog.crates:
+                rep.anchor_missing(crate + " TzifOwned::parse_transitions")
+            continue
+        f = cands[0]
+        n += 1
+        T = Terms(f)
+        cfg = mir.CFG(f)
+        errs = [bi for bi, b in enumerate(f.blocks) for s in b["st"] if s["s"] == "=" and s["lhs"]["l"] == 0 and s["rv"]["k"] == "agg" and s["rv"].get("variant") == "Err"]
+        ordered = False
+        for bi in errs:
+            for (c, _truth, _sb) in guards(f, cfg, T, bi):
+                for x in walk(c):
+                    if isinstance(x, tuple) and x and x[0] == "bin" and x[1] in ("Le", "Lt", "Ge", "Gt"):
+                        is_ts = lambda sd: any(is_call(y, "from_be_bytes_i64") or is_call(y, "from_be_bytes_i32") for y in walk(sd))
+                        if is_ts(x[2]) and is_ts(x[3]):
+                            ordered = True
+        key = crate + " parse_transitions: strictly ascending"
+        if ordered:
+            rep.ok(rule, key, how="each raw transition time is compared with the previous one; a failure is an error", loc=f.loc())
+        else:
+            rep.violation(rule, key, "the transition times are stored without comparing each with the one before it: a file with repeated or "
+                          "descending times is accepted and every lookup binary-searches an unsorted table", f.loc())
+    rep.floor(rule + " functions", n, 4)
